@@ -1,6 +1,9 @@
 package parse
 
-import "fmt"
+import (
+	"fmt"
+	"strings"
+)
 
 // parseExpr parses an expression: a chain of operands and binary operators,
 // optionally followed by the conditional operator, which binds loosest and
@@ -43,7 +46,8 @@ func (t *Tree) parseBinaryExpr(minPrec int) (Expr, error) {
 		if nt.tokenType != tokenOperator {
 			return left, nil
 		}
-		op, ok := binaryOperators[nt.value]
+		// "not  in" or "starts\nwith" name the operators "not in" and "starts with".
+		op, ok := binaryOperators[strings.Join(strings.Fields(nt.value), " ")]
 		if !ok {
 			return nil, newUnexpectedTokenError(nt)
 		}
